@@ -380,6 +380,19 @@ def bign_cases(tier):
                 if len(s1) >= 2:
                     cases.append({"n": n, "kind": "asym", "history": [{"op": "merge", "J": [s1]},
                                                                        {"op": "delete", "S": s2}]})
+    # one call with MANY join lists: every ordered tuple of 3 distinct pair-lists (n = 4, 5, 6), of 4 distinct pair-lists
+    # (n = 5) and of 3 lists of size 2..3 (n = 5) -- from the initial state and after a deletion (bridging lists, chains
+    # that close late, lists that touch a deleted cell)
+    for n, sizes, k in ((4, (2,), 3), (5, (2,), 3), (6, (2,), 3), (5, (2,), 4), (5, (2, 3), 3)):
+        if tier == "quick" and (n, sizes, k) in ((5, (2,), 4), (5, (2, 3), 3)):
+            continue
+        subl = [s for s in all_subsets(n, min(sizes), max(sizes))]
+        for kind in ("asym", "sym"):
+            for J in itertools.permutations(subl, k):
+                cases.append({"n": n, "kind": kind, "history": [{"op": "merge", "J": [list(x) for x in J]}]})
+                if n <= 5 and k == 3 and sizes == (2,):
+                    cases.append({"n": n, "kind": kind, "history": [{"op": "delete", "S": [1]},
+                                                                    {"op": "merge", "J": [list(x) for x in J]}]})
     # larger matrices, longer structured histories (merge many pairs, delete a stripe, chain-merge through deleted cells,
     # merge everything that is left in two steps)
     for n in (24, 40):
